@@ -49,7 +49,7 @@ PROPS = {
         "assumptions": COMMON_ASSUME,
     },
     "C06": {
-        "arms": [arm("hist", 0, weight=4), arm("hist", 1, weight=3), arm("hist", 0, "asan0", weight=1), arm("hist", 0, weight=1, long=1)],
+        "arms": [arm("hist", 0, weight=4), arm("hist", 1, weight=3), arm("hist", 0, "asan0", weight=1), arm("hist", 0, weight=1, long=1), arm("grow", 0, weight=1)],
         "rule": "after every operation the object is dumped through the query API (three rotating sets of getters) and compared with the reference model; non-trivial = at least one successful edit followed by a full dump comparison; distinct = distinct plan hashes",
         "assumptions": COMMON_ASSUME + ["duplicate indices inside one row/column list and explicit zero coefficients are not generated (unspecified behaviour)"],
     },
@@ -69,7 +69,7 @@ PROPS = {
         "assumptions": COMMON_ASSUME,
     },
     "C17": {
-        "arms": [arm("hist", 1, weight=3), arm("invalid", 0, weight=1), arm("solve", 1, weight=2), arm("config", 1, weight=1), arm("copy", 1, weight=2), arm("io", 1, weight=2), arm("reader", 1, weight=1), arm("lu", 1, weight=1), arm("cli", 1, weight=1), arm("resolve", 1, weight=2), arm("hist", 1, "asan0", weight=1)],
+        "arms": [arm("hist", 1, weight=3), arm("invalid", 0, weight=1), arm("solve", 1, weight=2), arm("config", 1, weight=1), arm("copy", 1, weight=2), arm("io", 1, weight=2), arm("reader", 1, weight=1), arm("lu", 1, weight=1), arm("cli", 1, weight=1), arm("resolve", 1, weight=2), arm("grow", 1, weight=1), arm("hist", 1, "asan0", weight=1)],
         "rule": "union of all profiles under ASan+UBSan (crash, hang and sanitizer reports are violations); plus twin runs: a sample of plans is executed in three fresh processes (asan / plain -O2 / asan with GMP on malloc; different fresh-memory fill pattern and environment size) whose transcripts - return codes, statuses, digests of every solution vector, bases, bytes of written files - must be identical; thorough adds valgrind memcheck on the plain binary; non-trivial = a run of >= 3 operations; distinct = distinct plan hashes",
         "assumptions": COMMON_ASSUME + ["reads of uninitialised memory are detected differentially (fill patterns) and by valgrind on a subset; MSan is unusable with uninstrumented libgmp"],
         "twin": True,
